@@ -57,6 +57,9 @@ enum Dml {
     Ins(String, i64, i64),
     Upd(String, i64, i64),
     Del(String, i64),
+    /// ALTER TABLE t ADD COLUMN extra INT — only generated inside a session that is still open at every crash point
+    /// (a committed or rolled-back ALTER of a populated table is a listed finding of C15); invisible to `SELECT id, v`
+    Alt(String),
 }
 
 impl Dml {
@@ -76,6 +79,7 @@ impl Dml {
             Dml::Ins(t, id, v) => format!("INSERT INTO {} VALUES ({}, {})", t, id, v),
             Dml::Upd(t, id, v) => format!("UPDATE {} SET v = {} WHERE id = {}", t, v, id),
             Dml::Del(t, id) => format!("DELETE FROM {} WHERE id = {}", t, id),
+            Dml::Alt(t) => format!("ALTER TABLE {} ADD COLUMN extra INT", t),
         }
     }
     fn parse(ws: &[&str]) -> Option<Dml> {
@@ -87,6 +91,7 @@ impl Dml {
             ["ins", t, id, v] => Dml::Ins(t.to_string(), id.parse().ok()?, v.parse().ok()?),
             ["upd", t, id, v] => Dml::Upd(t.to_string(), id.parse().ok()?, v.parse().ok()?),
             ["del", t, id] => Dml::Del(t.to_string(), id.parse().ok()?),
+            ["alt", t] => Dml::Alt(t.to_string()),
             _ => return None,
         })
     }
@@ -97,11 +102,12 @@ impl Dml {
             Dml::Ins(t, id, v) => format!("ins {} {} {}", t, id, v),
             Dml::Upd(t, id, v) => format!("upd {} {} {}", t, id, v),
             Dml::Del(t, id) => format!("del {} {}", t, id),
+            Dml::Alt(t) => format!("alt {}", t),
         }
     }
     fn table(&self) -> &str {
         match self {
-            Dml::Crt(t) | Dml::CrtW(t) | Dml::CrtX(t) | Dml::Drp(t) | Dml::Ins(t, _, _) | Dml::Upd(t, _, _) | Dml::Del(t, _) => t,
+            Dml::Crt(t) | Dml::CrtW(t) | Dml::CrtX(t) | Dml::Drp(t) | Dml::Ins(t, _, _) | Dml::Upd(t, _, _) | Dml::Del(t, _) | Dml::Alt(t) => t,
         }
     }
 }
@@ -935,6 +941,18 @@ fn gen_workload(rng: &mut Rng, _head: &str, idx: usize) -> (Vec<Op>, Vec<String>
         if !special_done && step >= steps / 3 {
             special_done = true;
             match family {
+                "open_txn" if idx % 20 == 14 => {
+                    // an ALTER TABLE that is still open at every later crash point, on a table nobody else touches afterwards
+                    let side = "a9".to_string();
+                    // (the table stays empty: reading a populated table while its ALTER is open is a listed finding of C15)
+                    ops.push(Op::Auto(Dml::Crt(side.clone())));
+                    ops.push(Op::Flush);
+                    sess += 1;
+                    ops.push(Op::SBegin(sess));
+                    ops.push(Op::SDml(sess, Dml::Alt(side.clone())));
+                    tags.push("open_alter".into());
+                    continue;
+                }
                 "open_txn" => {
                     sess += 1;
                     ops.push(Op::SBegin(sess));
